@@ -66,6 +66,20 @@ class Summary(object):
             return self.k_post == self.st.canon(KNOWN)
         return all(self.st.canon(b) == self.st.canon(('in', 'st', off + i)) for i, b in enumerate(self.field_bytes(name, n)))
 
+    def changed_fields(self, exclude=()):
+        """Names of the record fields (other than `exclude` roles) whose bytes differ from the record at entry."""
+        skip = set(self.fs.soff(n) for n in exclude)
+        out = []
+        for name, off, qt, _ in self.fs.srec.fields:
+            if off is None or off in skip:
+                continue
+            n = self.fs.ix.sizeof(self.fs.ix.parse_type(qt))
+            now = tuple(self.st.canon(b) for b in mem.load_bytes(self.st, self.so, C(off), n))
+            ent = self.fs.entry_bytes(off, n)
+            if now != ent and now != tuple(self.st.canon(b) for b in ent):
+                out.append(name)
+        return out
+
     def opcodes_sent(self):
         out = []
         for sn, ctx in self.sends:
